@@ -46,7 +46,7 @@ def _gauss_moment(env, m, c):
 J_DOC = {"se": (0, 0), "se_ar2": (1, 1), "se_a2r4": (2, 2)}     # k(a, r) = a^p r^(2m) exp(-a r^2)
 
 
-def h_gto(env, spec, order, ng=2, na=2):
+def h_gto(env, spec, order, ng=2, na=2, level="MGGA"):
     """through the real Python wrapper and the FFI bridge"""
     plans, st = env.m.plans, env.m.settings
     a = env.arr("a", (ng,), "pos", lo="1/64", hi="64")
@@ -65,7 +65,11 @@ def h_gto(env, spec, order, ng=2, na=2):
 
         def _get_transformed_interpolation_terms(self, p_xx, i=-1, fwd=True, inplace=False):
             raise NotImplementedError
-    s = st.NLDFSettingsVJ("MGGA", [1.0, 0.0, 0.03125], "one", [spec], [[2.0, 0.0, 0.04] + ([erf] if spec == "se_erf_rinv" else [])])
+    if level == "MGGA":
+        s = st.NLDFSettingsVJ("MGGA", [1.0, 0.0, 0.03125], "one", [spec], [[2.0, 0.0, 0.04] + ([erf] if spec == "se_erf_rinv" else [])])
+    else:
+        # GGA-level parameter lists have no tau multiplier: [a0, grad_mul] (+ the erf ratio for se_erf_rinv)
+        s = st.NLDFSettingsVJ("GGA", [1.0, 0.0], "one", [spec], [[2.0, 0.0] + ([erf] if spec == "se_erf_rinv" else [])])
     plan = P(s, 1, 0.01, 2.0, na, coef_order=order)
     plan.alphas = al.copy()
     plan.local_alphas = al.copy()
@@ -73,6 +77,19 @@ def h_gto(env, spec, order, ng=2, na=2):
     if not ok:
         return
     p, dp = out
+    if not env.sym and spec == "se_erf_rinv":
+        # concrete replay of a symbolic run that could not complete the call (e.g. the C kernel read past the extra-argument array):
+        # the call returning is not enough, the returned coefficients must be the erf-damped overlaps for the settings' ratio
+        pr = np.asarray(p, float).reshape((ng, na) if order == "gq" else (na, ng))
+        pr = pr if order == "gq" else pr.T
+        bb = np.asarray(a, float)[:, None] + np.asarray(al, float)[None, :]
+        ref = np.pi ** 1.5 / (bb * np.sqrt(bb + erf * np.asarray(a, float)[:, None]))
+        err = float(np.max(np.abs(pr - ref) / np.abs(ref)))
+        if err > 1e-9:
+            for o in env.obls:
+                if o.name == "wrapper_returns":
+                    o.got = False
+                    o.meta["detail"] = "returned, but the se_erf_rinv coefficients differ from the erf-damped overlaps for the stored ratio by %.3e (relative)" % err
     env.check("shape", np.shape(p) == ((ng, na) if order == "gq" else (na, ng)), "%s" % (np.shape(p),))
     for g in range(ng):
         for q in range(na):
@@ -81,6 +98,15 @@ def h_gto(env, spec, order, ng=2, na=2):
             if spec in J_DOC:
                 pw, m = J_DOC[spec]
                 env.equal("p_is_documented_overlap_g%d_q%d" % (g, q), p[idx], a[g] ** pw * _gauss_moment(env, m, a[g] + al[q]))
+            elif spec == "se_erf_rinv":
+                # kernel exp(-a r^2) * (sqrt(pi)/2) erf(sqrt(c a) r) / (sqrt(c a) r) with c = the settings' erf ratio (-> 1 at r = 0);
+                # overlap with exp(-alpha r^2) by the lemma int_0^inf r exp(-b r^2) erf(k r) dr = k / (2 b sqrt(b + k^2)):
+                #   pi^(3/2) / (b sqrt(b + c a)),  b = a + alpha.   Decides that the ratio stored in feat_params is the one the C kernel receives.
+                b_ = a[g] + al[q]
+                pi = env.m.plans.np.pi if env.sym else np.pi
+                half = env.const(Fraction(1, 2))
+                env.equal("p_is_erf_damped_overlap_with_the_settings_ratio_g%d_q%d" % (g, q), p[idx],
+                          pi ** env.const(Fraction(3, 2)) / (b_ * (b_ + env.const(Fraction(erf)) * a[g]) ** half))
             for g2 in range(ng):
                 if g2 != g:
                     env.deriv("local_g%d_q%d_wrt_a%d" % (g, q, g2), p[idx], ("a", (g2,)), env.const(0))
@@ -231,6 +257,8 @@ def tasks(tier):
     for spec in ("se", "se_ar2", "se_a2r4", "se_erf_rinv"):
         for order in ("gq", "qg"):
             out.append(Task("gto/%s/%s" % (spec, order), h_gto, dict(spec=spec, order=order), mods="numint"))
+    for spec, order in (("se_erf_rinv", "gq"), ("se_erf_rinv", "qg"), ("se_ar2", "gq")):
+        out.append(Task("gto/%s/%s/GGA" % (spec, order), h_gto, dict(spec=spec, order=order, level="GGA"), mods="numint"))
     for order in ("gq", "qg"):
         out.append(Task("vk1/%s" % order, h_vk1, dict(order=order)))
         out.append(Task("spline/%s" % order, h_spline, dict(order=order), max_paths=64))
